@@ -21,13 +21,33 @@ WTok(s, i, st, acc) ==
   ELSE WTok(s, i + 1, IF st = 0 THEN i ELSE st, acc)
 WTokens(s) == WTok(s, 1, 0, <<>>)
 
+\* --comment-delimiter (all tools): "the delimiter and the rest of the line will be removed prior to processing and
+\* subsequently appended to the output line (separated by a space)".  cfg.cd: the delimiter byte, 0 = none
+CPos(c, s) == IF c.cd = 0 THEN 0 ELSE FirstPos(s, LAMBDA x : x = c.cd)
+Body(c, s) == LET p == CPos(c, s) IN IF p = 0 THEN s ELSE SubSeq(s, 1, p - 1)
+Comment(c, s) == LET p == CPos(c, s) IN IF p = 0 THEN <<>> ELSE SubSeq(s, p, Len(s))
+\* the output line without the appended comment; <<FALSE>> when the comment is not there
+OutBody(c, s, out) ==
+  LET cm == Comment(c, s)  n == Len(out)  m == Len(cm) IN
+  IF m = 0 THEN <<TRUE, out>>
+  ELSE IF n >= m + 1 /\ SubSeq(out, n - m, n) = <<32>> \o cm THEN <<TRUE, SubSeq(out, 1, n - m - 1)>>
+  ELSE <<FALSE, <<>> >>
+SignedDegL(neg, D) == IF neg THEN -D ELSE D
+
 (* ------------------------------ GeoConvert ------------------------------- *)
-\* cfg: [tool, mode ("g" "d" ":" "u" "m"), prec, w (longitude first), c (MGRS centre)]
+\* cfg: [tool, mode ("g" "d" ":" "u" "m"), prec, w (longitude first), c (MGRS centre), cd (comment delimiter),
+\*       z (-z zone: the UTM zone of the output, 0 = not given), zn ("n" / "s": -z zone with a hemisphere, "" none)]
 \* class of an input line: "bad" (must give ERROR), "good" (must not), "any"
-GCLine(cfg, s) ==
-  LET r == Reset(s, cfg.c, cfg.w) IN
+\* -z: "use zone for the output" - possible only for points that the zone's projection covers; the man page does not
+\* give the limit, so only points within 4 degrees of the central meridian and below latitude 80 are held to succeed
+NearZone(z, lat, lon) ==
+  LET cm == 6 * z - 183  d == SignedDegL(lon[2], lon[3]) - cm IN
+  ~lon[7] /\ lat[3] < 80 /\ d <= 3 /\ d >= -4
+GCLine(cfg, s0) ==
+  LET s == Body(cfg, s0)  r == Reset(s, cfg.c, cfg.w) IN
   CASE r[1] = "throw" -> "bad"
     [] r[1] \in {"any", "nanpos"} -> "any"
+    [] cfg.z # 0 -> IF r[1] = "geo" /\ ~r[5] /\ ~r[2][6] /\ NearZone(cfg.z, r[2], r[3]) /\ cfg.mode # "m" THEN "good" ELSE "any"
     [] r[1] = "geo" -> IF r[5] THEN "any" ELSE "good"                    \* mixed separators
     [] r[1] \in {"utm", "mgrs"} -> IF cfg.mode = "m" THEN "any" ELSE "good"   \* MGRS has narrower limits (C05)
 
@@ -64,8 +84,9 @@ LLClose(lat, lon, o1, o2, w, pe, dms) ==
 \* grid coordinates in nanometre limbs: | a - b | <= h nm
 NmDiffLE(a, b, h) == LET d == a[1] - b[1] IN d <= 1 /\ d >= -1 /\ d * 1000000000 + (a[2] - b[2]) <= h /\ -(d * 1000000000 + (a[2] - b[2])) <= h
 NorthY(northp, Y) == IF northp THEN Y ELSE <<Y[1] - 10000000, Y[2]>>      \* northing counted from the equator
-GCContent(cfg, s, out) ==
-  LET r == Reset(s, cfg.c, cfg.w)  tk == Tokens(out) IN
+\* -l: "on output, UTM/UPS uses the long forms north and south to designate the hemisphere instead of n or s"
+LongZone(t) == Len(t) >= 5 /\ LowerS(SubSeq(t, Len(t) - 4, Len(t))) \in {<<110, 111, 114, 116, 104>>, <<115, 111, 117, 116, 104>>}
+GCItems0(cfg, r, out, tk) ==
   CASE r[1] = "geo" /\ cfg.mode \in {"g", "d", ":"} ->
          /\ Len(tk) = 2
          /\ LLClose(r[2], r[3], tk[1], tk[2], cfg.w, IF cfg.mode = "g" THEN Max2L(0, Min2L(9, cfg.prec) + 5) ELSE Max2L(0, Min2L(10, cfg.prec) + 5), cfg.mode # "g")
@@ -76,37 +97,73 @@ GCContent(cfg, s, out) ==
          /\ NmDiffLE(q[4], r[4], 5 * Pow10(8 - cfg.prec))
          /\ (r[2] # 0 => NmDiffLE(NorthY(q[3], q[5]), NorthY(r[3], r[5]), 5 * Pow10(8 - cfg.prec)))
          /\ (r[2] = 0 => q[3] = r[3] /\ NmDiffLE(q[5], r[5], 5 * Pow10(8 - cfg.prec)))
+    [] cfg.mode = "u" /\ cfg.z # 0 ->
+         \* the position in the zone asked for (and in the hemisphere convention asked for), as a legal UTM string
+         LET zz == IF Len(tk) = 3 THEN UT!DecodeZone(tk[1]) ELSE <<"throw">> IN
+         /\ Len(tk) = 3 /\ zz[1] # "throw" /\ zz[2] = cfg.z /\ (cfg.zn # "" => zz[3] = (cfg.zn = "n"))
+         /\ Reset(out, TRUE, FALSE)[1] = "utm"
     [] cfg.mode = "u" -> Len(tk) = 3
     [] cfg.mode = "m" -> Len(tk) <= 1
     [] OTHER -> Len(tk) = 2
+GCItems(cfg, r, out, tk) == GCItems0(cfg, r, out, tk) /\ (cfg.mode = "u" /\ Len(tk) = 3 => LongZone(tk[1]) = cfg.l)
+GCContent(cfg, s0, out0) ==
+  LET s == Body(cfg, s0)  ob == OutBody(cfg, s0, out0)  out == ob[2]
+      r == Reset(s, cfg.c, cfg.w)  tk == Tokens(out) IN
+  /\ ob[1]                                                   \* the comment is appended, separated by a space
+  /\ GCItems(cfg, r, out, tk)
 
 (* ------------------------------ GeodSolve -------------------------------- *)
-\* cfg: [tool, mode ("dir" "inv"), prec, w, dms (0, 100 for d ' ", 58 for :)]
-GSLine(cfg, s) ==
-  LET tk == WTokens(s) IN
+\* cfg: [tool, mode ("dir" "inv" "line"), prec, w, dms (0, 100 for d ' ", 58 for :), cd (comment delimiter),
+\*       arc (-a: "on input and output s12 is replaced by a12 the arc length (in degrees)"; an arc length "can be as
+\*       decimal degrees or degrees, minutes, seconds", without hemisphere designator), lat1 lon1 azi1 (mode "line",
+\*       -L lat1 lon1 azi1: "each line of standard input gives s13 ... prints lat3 lon3 azi3")]
+\* the last item of a direct / line-mode line: a distance (a real number) or, with -a, an arc length
+DistOf(cfg, t) == IF cfg.arc THEN DecodeAngle(t) ELSE Val(t)
+DistClass(cfg, t) ==
+  LET r == DistOf(cfg, t) IN
+  IF r[1] = "throw" THEN "bad" ELSE IF cfg.arc /\ r[1] = "fin" /\ (r[9] \/ r[6]) THEN "any" ELSE "good"
+DistZero(cfg, t) == LET r == DistOf(cfg, t) IN IF cfg.arc THEN r[1] = "fin" /\ r[3] = 0 /\ r[4] = 0 /\ r[5] ELSE r[1] = "num" /\ r[3] = 0
+GSLine(cfg, s0) ==
+  LET tk == WTokens(Body(cfg, s0)) IN
+  IF cfg.mode = "line" THEN (IF Len(tk) # 1 THEN "bad" ELSE DistClass(cfg, tk[1]))
+  ELSE
   IF Len(tk) # 4 THEN "bad"                                   \* Incomplete / Extraneous input
   ELSE LET a == DecodeLatLon(tk[1], tk[2], cfg.w)
            b == IF cfg.mode = "inv" THEN DecodeLatLon(tk[3], tk[4], cfg.w) ELSE <<"ok">>
            az == IF cfg.mode = "inv" THEN <<"ok">> ELSE DecodeAzimuth(tk[3])
-           ds == IF cfg.mode = "inv" THEN <<"ok">> ELSE Val(tk[4])
+           ds == IF cfg.mode = "inv" THEN "good" ELSE DistClass(cfg, tk[4])
            Mixed(x) == x[1] # "throw" /\ Len(x) >= 3 /\ ((x[2][1] = "fin" /\ x[2][9]) \/ (x[3][1] = "fin" /\ x[3][9]))
-       IN IF a[1] = "throw" \/ b[1] = "throw" \/ az[1] = "throw" \/ ds[1] = "throw" THEN "bad"
-          ELSE IF a[1] = "edge" \/ b[1] = "edge" \/ Mixed(a) \/ Mixed(b) \/ (cfg.mode # "inv" /\ Decode(tk[3])[1] = "fin" /\ Decode(tk[3])[9]) THEN "any"
+       IN IF a[1] = "throw" \/ b[1] = "throw" \/ az[1] = "throw" \/ ds = "bad" THEN "bad"
+          ELSE IF a[1] = "edge" \/ b[1] = "edge" \/ Mixed(a) \/ Mixed(b) \/ ds = "any" \/ (cfg.mode # "inv" /\ Decode(tk[3])[1] = "fin" /\ Decode(tk[3])[9]) THEN "any"
           ELSE "good"
 
-\* a direct problem of zero length returns its starting point and azimuth
-GSContent(cfg, s, out) ==
-  LET tk == WTokens(s)  ot == WTokens(out) IN
-  IF cfg.mode = "inv" THEN Len(ot) = 3
-  ELSE
-    /\ Len(ot) = 3
-    /\ LET a == DecodeLatLon(tk[1], tk[2], cfg.w)  ds == Val(tk[4])  az == DecodeAzimuth(tk[3])
+\* a direct problem of zero length returns its starting point and azimuth (also the point at distance zero on a line)
+GSContent(cfg, s0, out0) ==
+  LET tk == WTokens(Body(cfg, s0))  ob == OutBody(cfg, s0, out0)  ot == WTokens(ob[2]) IN
+  /\ ob[1]                                                   \* the comment is appended, separated by a space
+  /\ Len(ot) = (IF cfg.full THEN 12 ELSE 3)
+  /\ (cfg.dms = 58 => \A i \in 1..Len(ob[2]) : ob[2][i] \notin {100, 39, 34})      \* -: "like -d, except use : as a separator"
+  \* -f: "each line of output consists of 12 quantities: lat1 lon1 azi1 lat2 lon2 azi2 s12 a12 m12 M12 M21 S12": the points
+  \* and the azimuth that were read are printed again, so they must be the input to within half a unit of the last digit
+  /\ (cfg.full /\ cfg.mode # "line") =>
+       LET a == DecodeLatLon(tk[1], tk[2], cfg.w)
            pe == Min2L(10, Max2L(0, cfg.prec)) + 5
            dms == cfg.dms # 0
            h == HalfUnit(IF dms THEN TrailOf(pe) ELSE DEGREE, IF dms THEN PrecOf(pe) ELSE pe)
-       IN (ds[1] = "num" /\ ds[3] = 0 /\ a[2][1] = "fin" /\ a[3][1] = "fin" /\ a[2][3] < 89 /\ az[1] = "az") =>
-            /\ LLClose(a[2], Reduce180(a[3]), ot[1], ot[2], cfg.w, pe, dms)
-            /\ LET oz == DecodeAzimuth(ot[3]) IN
+       IN /\ LLClose(a[2], Reduce180(a[3]), ot[1], ot[2], cfg.w, pe, dms)
+          /\ cfg.mode = "inv" => LET b == DecodeLatLon(tk[3], tk[4], cfg.w) IN LLClose(b[2], Reduce180(b[3]), ot[4], ot[5], cfg.w, pe, dms)
+          /\ cfg.mode = "dir" => LET az == DecodeAzimuth(tk[3])  oz == DecodeAzimuth(ot[3]) IN
+                                   az[1] = "az" => oz[1] = "az" /\ ((h > 0 /\ az[5] /\ oz[5]) => LonDiffLE(oz, az, h))
+  /\ cfg.mode # "inv" =>
+       LET line == cfg.mode = "line"
+           a == IF line THEN DecodeLatLon(cfg.lat1, cfg.lon1, FALSE) ELSE DecodeLatLon(tk[1], tk[2], cfg.w)
+           az == DecodeAzimuth(IF line THEN cfg.azi1 ELSE tk[3])
+           pe == Min2L(10, Max2L(0, cfg.prec)) + 5
+           dms == cfg.dms # 0
+           h == HalfUnit(IF dms THEN TrailOf(pe) ELSE DEGREE, IF dms THEN PrecOf(pe) ELSE pe)
+       IN (DistZero(cfg, tk[IF line THEN 1 ELSE 4]) /\ a[1] = "ok" /\ a[2][1] = "fin" /\ a[3][1] = "fin" /\ a[2][3] < 89 /\ az[1] = "az") =>
+            /\ LLClose(a[2], Reduce180(a[3]), ot[IF cfg.full THEN 4 ELSE 1], ot[IF cfg.full THEN 5 ELSE 2], cfg.w, pe, dms)
+            /\ LET oz == DecodeAzimuth(ot[IF cfg.full THEN 6 ELSE 3]) IN
                /\ oz[1] = "az"
                /\ (h > 0 /\ az[5] /\ oz[5]) => LonDiffLE(oz, az, h)
 =============================================================================
